@@ -48,6 +48,13 @@ class C09(Prop):
                            simulate="num=%d" % nb, depth=10, seed=self.seed + 120 + n, collect=True)
             for pr in circ.read_sim_programs(r.printed):
                 self.sim.append((n, pr["items"]))
+        # dense maps on 24 qubits with their inverses (TLC walk): gates specified by ONE map, the other is derived by the code
+        self.dense = []
+        r = self.model("MC_RotSim", "MC_RotSim_n24.cfg", name="rotsim_n24", workers=1, simulate="num=%d" % (3 if self.tier == "thorough" else 1),
+                       depth=14, seed=self.seed + 124, collect=True, timeout=1500)
+        for e in r.printed:
+            if e[0] == "S" and e[1] in (10, 14):
+                self.dense.append((24, e[3], e[4]))
 
     def scenarios(self):
         thorough = self.tier == "thorough"
@@ -75,6 +82,21 @@ class C09(Prop):
         # wide registers: the N=3 programs relabelled onto qubits around index 64 (one machine word of qubit flags)
         wide = [ids for ids, _ in self.progs if len(ids) == 3 and all(i <= 14 for i in ids)]
         rng = self.rng
+        for j, (n, m, mi) in enumerate(self.dense):
+            qs = list(range(1, n + 1))
+            for how in ("fwd", "bwd", "both"):
+                items = [{"how": how, "k": "map", "qs": qs, "m": m, "mi": mi}]
+                if j % 2:
+                    items.append(dict(self.alpha[1], qs=[q + 20 for q in self.alpha[1]["qs"]]) if max(self.alpha[1]["qs"]) <= 3 else items[0])
+                for cfg in (("CliffordCircuit", "plain", "orig"), ("CliffordCircuit", "circuit", "copy")):
+                    yield {"k": "circuit", "items": items, "n": n, "cfg": list(cfg), "wide": True}
+        for t in range(36 if thorough else 12):
+            # (medium registers, 9..12 qubits, for both packages: labels beyond 7)
+            ids = rng.choice(wide)
+            n, inj = rng.choice(((9, [1, 8, 9]), (9, [7, 8, 9]), (12, [2, 5, 8]), (12, [8, 10, 12]), (10, [3, 9, 10])))
+            items = [dict(self.alpha[i], qs=[inj[q - 1] for q in self.alpha[i]["qs"]]) for i in ids]
+            yield {"k": "circuit", "items": items, "n": n, "cfg": list(CONFIGS[(t * 5) % len(CONFIGS)]), "pkg": "py", "wide": True}
+            yield {"k": "circuit", "items": items, "n": n, "cfg": list(TCONFIGS[(t * 4) % len(TCONFIGS)]), "pkg": "torch", "wide": True}
         for t in range(30 if thorough else 10):
             ids = rng.choice(wide)
             n, inj = rng.choice(((66, [64, 65, 66]), (66, [2, 65, 66]), (65, [63, 64, 65]), (70, [1, 64, 66]), (70, [64, 65, 70]), (64, [62, 63, 64])))
